@@ -675,6 +675,7 @@ fn encode_record(payload: &[u8]) -> Vec<u8> {
 
 fn gen_payload(rng: &mut Rng, thorough: bool) -> Vec<u8> {
     let len = match rng.below(20) {
+        0 if rng.chance(1, 3) => rng.range(3000, 9000), // buffers larger than any small threshold
         0 => 0,
         1..=11 => rng.range(1, 12),
         12..=15 => rng.range(13, 60),
@@ -765,6 +766,58 @@ pub fn gen_stream(rng: &mut Rng, thorough: bool) -> Vec<u8> {
     s
 }
 
+/// A stream whose first delimiter sits on (or one/two bytes around) the first
+/// block boundary: a record (or delimiter-free garbage) of `block + delta` bytes,
+/// possibly ending in FE, then `FE FD`, then an ordinary stream.
+pub fn gen_stream_aligned(rng: &mut Rng, block: usize, thorough: bool) -> Vec<u8> {
+    let b = block.max(2);
+    if b > 20000 {
+        return gen_stream(rng, thorough);
+    }
+    let k = if b < 64 { rng.range(1, 3) as usize } else { 1 };
+    let target = (k * b + 2).saturating_sub(rng.range(0, 4) as usize).max(1);
+    let mut s: Vec<u8>;
+    if rng.chance(2, 3) {
+        // a valid record of exactly `target` encoded bytes, if one exists nearby
+        s = Vec::new();
+        for l in (target.saturating_sub(9)..target).rev() {
+            let mut payload = vec![0x61u8; l];
+            if l > 0 && rng.chance(1, 2) {
+                payload[l - 1] = FE;
+            }
+            let r = encode_record(&payload);
+            if r.len() == target {
+                s = r;
+                break;
+            }
+        }
+        if s.is_empty() {
+            s = vec![0x61u8; target];
+        }
+    } else {
+        s = (0..target).map(|_| *rng.pick(&[0x00u8, 0x01, 0x61, FE, 0xFF])).collect();
+        if rng.chance(1, 2) {
+            s[target - 1] = FE;
+        }
+    }
+    match rng.below(6) {
+        0 => s.extend_from_slice(&[FE, FE, FD]),
+        1 => s.extend_from_slice(&[FE, FD, FD]),
+        2 => s.extend_from_slice(&[FD, FE, FD]),
+        _ => s.extend_from_slice(&[FE, FD]),
+    }
+    s.extend(gen_stream(rng, thorough));
+    s
+}
+
+fn pick_block(rng: &mut Rng, table: &[usize]) -> usize {
+    if rng.chance(1, 6) {
+        rng.range(0, 8200) as usize
+    } else {
+        *rng.pick(table)
+    }
+}
+
 /// A read schedule for `stream`.  Returns the script text.
 pub fn gen_script(rng: &mut Rng, stream: &[u8], hard_errors: bool) -> String {
     let mut evs: Vec<String> = Vec::new();
@@ -817,7 +870,7 @@ pub fn gen_script(rng: &mut Rng, stream: &[u8], hard_errors: bool) -> String {
     evs.join(",")
 }
 
-const CHUNKER_BLOCKS: [usize; 10] = [0, 1, 2, 3, 4, 7, 64, 4096, 2, 3];
+const CHUNKER_BLOCKS: [usize; 12] = [0, 1, 2, 3, 4, 7, 64, 4096, 2, 3, 100000, 524288];
 
 fn all_strings(alphabet: &[u8], maxlen: usize) -> Vec<Vec<u8>> {
     let mut all: Vec<Vec<u8>> = vec![vec![]];
@@ -876,11 +929,12 @@ impl Family for ChunkerFamily {
     }
 
     fn gen_case(&self, rng: &mut Rng, _idx: u64, thorough: bool) -> Vec<String> {
-        let stream = gen_stream(rng, thorough);
+        let block = pick_block(rng, &CHUNKER_BLOCKS);
+        let stream =
+            if rng.chance(1, 3) { gen_stream_aligned(rng, block, thorough) } else { gen_stream(rng, thorough) };
         let hard = rng.chance(1, 8);
         let script = gen_script(rng, &stream, hard);
         let mut ops = vec![format!("stream {}", to_hex(&stream)), format!("script {}", script)];
-        let block = *rng.pick(&CHUNKER_BLOCKS);
         ops.push(format!("block {}", block));
         let nev = script.split(',').count();
         if rng.chance(1, 4) {
@@ -972,11 +1026,19 @@ impl Family for ReaderFamily {
     }
 
     fn gen_case(&self, rng: &mut Rng, _idx: u64, thorough: bool) -> Vec<String> {
-        let stream = gen_stream(rng, thorough);
+        let block = if rng.chance(1, 6) {
+            format!("{}", rng.range(0, 8200))
+        } else {
+            rng.pick(&READER_BLOCKS).to_string()
+        };
+        let stream = match block.parse::<usize>() {
+            Ok(b) if rng.chance(1, 3) => gen_stream_aligned(rng, b, thorough),
+            _ => gen_stream(rng, thorough),
+        };
         let hard = rng.chance(1, 10);
         let script = gen_script(rng, &stream, hard);
         let mut ops = vec![format!("stream {}", to_hex(&stream)), format!("script {}", script)];
-        ops.push(format!("block {}", *rng.pick(&READER_BLOCKS)));
+        ops.push(format!("block {}", block));
         let nseg = ref_segments(&stream).len();
         match rng.below(10) {
             0..=3 => ops.push("judge keepgoing".to_string()),
